@@ -11,19 +11,23 @@ from ..absval import Raised, Closure
 from ..core import AnalysisError, own_nodes, norm, parents, stmt_of, dominates
 from .. import rules
 
-LEVEL_TEXT = ("static analysis: (D1) region_depth_count interpreted on one read per combination of the flags duplicate / secondary / unmapped / "
-              "QC-fail / supplementary x mapping quality below / at / above the cut-off (96 cells): a read is counted <=> none of the first four "
-              "flags and mapq >= min_mapq (supplementary reads are counted); (D2) aligned positions count <=> start <= p < end; depth = bases / "
-              "(end - start) when end > start else 0; log2 = log2(depth) or -20 (NULL_LOG2_COVERAGE from params.py) when depth is 0; the "
-              "pileup path gives depth = basecount / span on rows with span > 0 and 0 elsewhere, log2 = -20 <=> depth = 0, gene filled with "
-              "'-'; (D3) bedcov passes -Q <min_mapq> to samtools <=> min_mapq > 0 (and --reference iff a FASTA is given), raising on empty "
-              "output; (D4) detect_bedcov_columns maps 3 / 4 / more tab-separated input columns to names with basecount last, fewer is an "
-              "error; both algorithms emit (chromosome, start, end, gene) unchanged; (D5) both fan-outs use Executor.map, the serial and the "
-              "parallel branch of each algorithm reach the same worker, chunks are concatenated in order, and to_chunks -- interpreted "
-              "exhaustively for chunk sizes 1..3 and every line count 0..3c+1, with comment lines -- yields every non-comment line exactly "
-              "once, in order, in closed files of at most chunk_size lines. Does not decide that the number of aligned bases is what "
-              "samtools reports, nor equality of the two algorithms on real reads (bedcov's own flag filter is trusted).")
-TECHNIQUE = "abstract interpretation of the read filter / depth arithmetic over finite flag and order domains; registry of the samtools arguments; ordered fan-out and sibling-worker rules; small-scope exhaustive interpretation of the chunker"
+LEVEL_TEXT = ('static analysis: (D1) region_depth_count interpreted on one read per combination of the flags duplicate / secondary / unmapped / '
+              'QC-fail / supplementary x mapping quality below / at / above the cut-off (96 cells): a read is counted <=> none of the first four '
+              'flags and mapq >= min_mapq (supplementary reads are counted); (D2) aligned positions count <=> start <= p < end (a gap inside a '
+              'spliced read is not counted); depth = bases / (end - start) when end > start else 0; log2 = log2(depth) or -20 (NULL_LOG2_COVERAGE'
+              ' from params.py) when depth is 0; the pileup path gives depth = basecount / span on rows with span > 0 and 0 elsewhere, log2 = -20'
+              " <=> depth = 0, gene filled with '-'; (D3) bedcov passes -Q <min_mapq> to samtools <=> min_mapq > 0 (and --reference iff a FASTA "
+              'is given), raising on empty output; (D4) detect_bedcov_columns maps 3 / 4 / more tab-separated input columns to names with '
+              'basecount last, fewer is an error; both algorithms emit (chromosome, start, end, gene) unchanged; (D5) both fan-outs use '
+              'Executor.map; interval_coverages_count and interval_coverages_pileup are interpreted for 1 and 3 processes with the pool stubbed '
+              '(map = apply in submission order): every bin reaches region_depth_count / every chunk reaches bedcov in file order with the '
+              "caller's min_mapq, alignment file and reference, and the pileup rows come back in file order; to_chunks -- interpreted "
+              'exhaustively for chunk sizes 1..3 and every line count 0..3c+1, with comment lines -- yields every non-comment line exactly once, '
+              'in order, in closed files of at most chunk_size lines. Does not decide that the number of aligned bases is what samtools reports, '
+              "nor equality of the two algorithms on real reads (bedcov's own flag filter is trusted).")
+TECHNIQUE = ('abstract interpretation of the read filter / depth arithmetic over finite flag and order domains; registry of the samtools '
+             'arguments; ordered fan-out rule; interpretation of the serial and parallel drivers with a pool stub; small-scope exhaustive '
+             'interpretation of the chunker')
 
 COV = "cnvlib.coverage"
 FLAGBITS = {"is_duplicate": 0x400, "is_secondary": 0x100, "is_unmapped": 0x4, "is_qcfail": 0x200, "is_supplementary": 0x800}
